@@ -258,4 +258,106 @@ theorem immediate_finish_guard (k : Nat) :
     endDecision .stopping k = (.stopping, false, .abort) := by
   simp [endDecision]
 
+
+/-! ## activation bookkeeping -/
+
+/-- (repaired behaviour, fixes/C06-start-after-parent-ended.diff) a `StartFlow` event never creates an instance
+    under a sender that has already finished or failed — except the restart of an activated flow, whose sender
+    is the ended instance of the same flow.  On the unpatched tree this is the open finding
+    `start-after-parent-ended` (a child whose StartFlow was still queued when its parent was aborted runs forever). -/
+theorem start_not_under_ended_parent (s : State) (fid : Nat) (known act hasInst : Bool) (source : Nat) (pm : Nat → Bool)
+    (s' : State) (src : Nat) (h : processStartFlow s fid known act hasInst source pm = .ok (s', .create src)) :
+    ∃ sf, s.flows source = some sf ∧ ((sf.status ≠ .stopped ∧ sf.status ≠ .finished) ∨ sf.flowId = fid) := by
+  unfold processStartFlow at h
+  split at h
+  · cases h
+  · dsimp only at h
+    split at h
+    · cases h
+    · next sf hsf =>
+      refine ⟨sf, hsf, ?_⟩
+      split at h
+      · cases h
+      · next hc =>
+        by_cases hid : sf.flowId = fid
+        · exact Or.inr hid
+        · left
+          have : (fid == sf.flowId) = false := by simp; exact fun e => hid e.symm
+          simp [this] at hc
+          exact hc
+
+/-- re-activating an already activated flow only increments the reference count of the reference instance,
+    registers it as a child of the new activator and announces `FlowStarted`; no instance is created -/
+theorem activate_existing (s : State) (fid : Nat) (known act hasInst : Bool) (source : Nat) (pm : Nat → Bool)
+    (s' : State) (r : Nat) (h : processStartFlow s fid known act hasInst source pm = .ok (s', .reused r)) :
+    s'.queue = s.queue ++ [.flowStarted r] ∧ s'.out = s.out ∧ s'.actions = s.actions ∧
+    ∃ rf, s.flows r = some rf ∧ 0 < rf.activated ∧ rf.flowId = fid := by
+  unfold processStartFlow at h
+  split at h
+  · cases h
+  · dsimp only at h
+    split at h
+    · cases h
+    · next sf hsf =>
+      split at h
+      · cases h
+      · split at h
+        · next r' hr' =>
+          split at h
+          · split at h
+            · cases h
+            · next rf hrf =>
+              cases h
+              refine ⟨by simp, by simp, by simp, rf, hrf, ?_⟩
+              -- the reference instance was selected by `getRefActivated`
+              have key : ∀ (l : List Nat) (r : Nat), getRefActivated s fid pm l = some r →
+                  ∃ f, s.flows r = some f ∧ 0 < f.activated ∧ f.flowId = fid := by
+                intro l
+                induction l with
+                | nil => intro r h; simp [getRefActivated] at h
+                | cons u us ih =>
+                  intro r h
+                  simp only [getRefActivated] at h
+                  split at h
+                  · exact ih r h
+                  · next f hf =>
+                    split at h
+                    · next hc =>
+                      cases h
+                      simp only [Bool.and_eq_true, beq_iff_eq] at hc
+                      refine ⟨f, hf, ?_, hc.1.1⟩
+                      have := hc.1.2
+                      unfold isReferenceCandidate at this
+                      simp at this
+                      omega
+                    · exact ih r h
+              split at hr'
+              · obtain ⟨f, hf, h1, h2⟩ := key _ _ hr'
+                rw [hrf] at hf; cases hf
+                exact ⟨h1, h2⟩
+              · cases hr'
+          · cases h
+        · cases h
+
+/-! ## T2 `lifetime_invariant` (statement; proved here only at the level of single operations) -/
+
+/-- No listening non-activated instance has a parent that is neither listening nor just being stopped. -/
+def LifetimeInv (s : State) : Prop :=
+  ∀ c cf p pf, s.flows c = some cf → cf.status.listening = true → cf.activated = 0 → cf.parent = some p →
+    s.flows p = some pf → pf.status.listening = true ∨ pf.status = .stopping
+
+/- Full statement (NOT proved; carried by the whole-history oracle on the real interpreter):
+     `LifetimeInv (initializeState cfg)` and `LifetimeInv s → LifetimeInv (runToCompletion s e)`.
+   Needs the whole-interpreter model (CoreVM, built for C09) for `runToCompletion`; on the unpatched tree it is
+   false (finding `start-after-parent-ended`).  Proved below: the operation-level facts the inductive step needs. -/
+
+/-- an ended (or never-listening) instance is never brought back by abort/deactivation steps, and its identity
+    (flow id, parent, `new_instance_started`, action list) is kept; children are only removed -/
+theorem ended_stays_ended (n : Nat) (s : State) (u : Nat) (s' : State) (h : abortFlow n s u true = .ok s')
+    (v : Nat) (f : Flow) (hv : s.flows v = some f) :
+    ∃ f', s'.flows v = some f' ∧ FlowUpd f f' ∧ (f.status.listening = false → f'.status.listening = false) := by
+  obtain ⟨_, _, hr⟩ := (abortFlow_true_steps n s u s' h).flows_rel
+  obtain ⟨f', hf', hu⟩ := hr v f hv
+  exact ⟨f', hf', hu, hu.not_listening⟩
+
 end NemoVerif.C06
